@@ -43,6 +43,7 @@ var (
 	OrderEd25519 = bi("7237005577332262213973186563042994240857116359379907606001950938285454250989")
 	OrderP256    = bi("115792089210356248762697446949407573529996955224135760342422259061068512044369")
 	OrderQR512   = bi("5099133861178675934299038070513690140208594154615901954959232152506056770707302268711370548280642524887896017588520836152823386566007063045571431221913131")
+	OrderQR72    = bi("18446744073709551629") // first prime above 2^64
 	OrderBN256   = bi("65000549695646603732796438742359905742570406053903786389881062969044166799969")
 	OrderBN254   = bi("21888242871839275222246405745257275088548364400416034343698204186575808495617")
 	OrderBLS     = bi("52435875175126190479447740508185965837690552500527637822603658699938581184513")
